@@ -7,7 +7,27 @@ import subprocess
 
 ATOMIC_METHODS = {"load": "load", "store": "store", "exchange": "xchg", "compare_exchange_weak": "cas",
                   "compare_exchange_strong": "cas", "wait": "wait", "notify_all": "notify", "notify_one": "notify",
-                  "fetch_add": "rmw", "fetch_sub": "rmw", "fetch_or": "rmw", "fetch_and": "rmw"}
+                  "fetch_add": "rmw", "fetch_sub": "rmw", "fetch_or": "rmw", "fetch_and": "rmw", "fetch_xor": "rmw"}
+# the free-function spellings of <atomic>: name -> (kind, name of the equivalent member function, index of the first memory-order
+# argument or None when the function takes none = seq_cst).  `std::atomic_xxx(&a, args...)` is DEFINED as `a.xxx(args...)`
+# ([atomics.nonmembers]), so it produces the same site row as the member spelling.
+FREE_ATOMIC = {}
+for _n, _k in (("load", "load"), ("store", "store"), ("exchange", "xchg"), ("compare_exchange_weak", "cas"), ("compare_exchange_strong", "cas"),
+               ("fetch_add", "rmw"), ("fetch_sub", "rmw"), ("fetch_and", "rmw"), ("fetch_or", "rmw"), ("fetch_xor", "rmw"), ("wait", "wait")):
+    _nargs = {"load": 1, "cas": 3}.get(_k, 2)          # arguments in front of the order(s), the object pointer included
+    FREE_ATOMIC["atomic_" + _n] = (_k, _n, None)
+    FREE_ATOMIC["atomic_" + _n + "_explicit"] = (_k, _n, _nargs)
+FREE_ATOMIC["atomic_notify_one"] = ("notify", "notify_one", None)
+FREE_ATOMIC["atomic_notify_all"] = ("notify", "notify_all", None)
+# operators of std::atomic<T>: all of them are seq_cst operations ([atomics.types.operations]): `a = v` is a.store(v), `a++`/`++a`/`a += n`
+# ... are a.fetch_xxx(n), the conversion `T(a)` is a.load()
+ATOMIC_OPERATORS = {"operator=": ("store", "store"), "operator++": ("rmw", "fetch_add"), "operator--": ("rmw", "fetch_sub"),
+                    "operator+=": ("rmw", "fetch_add"), "operator-=": ("rmw", "fetch_sub"), "operator&=": ("rmw", "fetch_and"),
+                    "operator|=": ("rmw", "fetch_or"), "operator^=": ("rmw", "fetch_xor")}
+# implicit conversions of atomics inside templates (see Walker.mark_implicit_loads)
+IMPLICIT_DEPENDENT_LOADS = True
+ATOMIC_ASSIGN_OPCODES = {"=": "operator=", "+=": "operator+=", "-=": "operator-=", "&=": "operator&=", "|=": "operator|=", "^=": "operator^=",
+                         "++": "operator++", "--": "operator--"}
 ORDERS = {"memory_order_relaxed": "relaxed", "memory_order_consume": "consume", "memory_order_acquire": "acquire",
           "memory_order_release": "release", "memory_order_acq_rel": "acq_rel", "memory_order_seq_cst": "seq_cst",
           "relaxed": "relaxed", "consume": "consume", "acquire": "acquire", "release": "release",
@@ -156,6 +176,30 @@ def base_of(o):
     return None
 
 
+def direct_atomic_type(t):
+    """the type IS an atomic object (not a container of atomics, not a pointer to one)"""
+    t = re.sub(r"^(const\s+|volatile\s+)+", "", (t or "").strip())
+    return bool(re.fullmatch(r"(std::)?(atomic<.*>|atomic_(?!thread_fence|signal_fence)\w+|__atomic_base<.*>)|(cocls::)?awaiter_collector", t))
+
+
+def independent_value(e):
+    """the operand is a constant or a parameter of the function: evaluating it reads no shared state and has no effect"""
+    if not isinstance(e, dict):
+        return False
+    k = e.get("kind")
+    if k in ("IntegerLiteral", "FloatingLiteral", "CXXBoolLiteralExpr", "CharacterLiteral", "UnaryExprOrTypeTraitExpr", "CXXNullPtrLiteralExpr"):
+        return True
+    if k in ("ImplicitCastExpr", "ParenExpr", "CStyleCastExpr", "CXXStaticCastExpr", "CXXFunctionalCastExpr", "ConstantExpr") and len(e.get("inner", [])) == 1:
+        return independent_value(e["inner"][0])
+    if k == "UnaryOperator" and e.get("opcode") in ("-", "+", "~") and len(e.get("inner", [])) == 1:
+        return independent_value(e["inner"][0])
+    if k == "BinaryOperator" and e.get("opcode") in ("+", "-", "*", "/", "%", "<<", ">>", "&", "|", "^") and len(e.get("inner", [])) == 2:
+        return all(independent_value(x) for x in e["inner"])
+    if k == "DeclRefExpr":
+        return (e.get("referencedDecl") or {}).get("kind") in ("ParmVarDecl", "EnumConstantDecl", "NonTypeTemplateParmDecl")
+    return False
+
+
 def terminates(o):
     """the statement never falls through (ends in return / break / continue / throw)"""
     if not isinstance(o, dict):
@@ -212,20 +256,91 @@ def order_of(arg):
     return None
 
 
-def order_arg(arg, order_params=(), std_default=False):
-    """the memory order an argument denotes, STRICTLY: a literal enumerator -> its name; a parameter of the enclosing function whose
-    type is std::memory_order -> "?<param>" (resolved over all call sites afterwards, see Walker.resolve_orders); anything else (a
-    variable, a conditional expression, a call) -> "?" = not known statically, treated as the weakest order"""
+def order_arg(arg, order_params=(), std_default=False, consts=None):
+    """the memory order an argument denotes, STRICTLY: a literal enumerator -> its name (`std::memory_order_acquire`, the scoped spelling
+    `std::memory_order::acquire`); a parameter of the enclosing function whose type is std::memory_order -> "?<param>" (resolved over
+    all call sites afterwards, see Walker.resolve_orders); a `constexpr` / `const` variable or static data member of type
+    std::memory_order whose initialiser is (transitively) one of these -> that order (`consts`: OrderConsts; the object is immutable and
+    its initialiser is the only value it ever has, so the operation is performed with exactly that order); a conditional expression ->
+    the weakest order implied by both arms (whichever arm is taken, the operation is at least that strong); anything else (a mutable
+    variable, a call, a cast from an integer) -> "?" = not known statically, treated as the weakest order"""
     a = strip(arg)
-    if isinstance(a, dict) and a.get("kind") == "CXXDefaultArgExpr" and std_default:
+    if not isinstance(a, dict):
+        return "?"
+    k = a.get("kind")
+    if k == "CXXDefaultArgExpr" and std_default:
         return "seq_cst"       # the defaulted order of a std::atomic member function
-    if isinstance(a, dict) and a.get("kind") == "DeclRefExpr":
-        name = (a.get("referencedDecl") or {}).get("name", "")
-        if name in ORDERS:
-            return ORDERS[name]
+    if k == "DeclRefExpr":
+        rd = a.get("referencedDecl") or {}
+        name, rk = rd.get("name", ""), rd.get("kind", "")
+        if consts is not None and rk == "VarDecl" and consts.known(rd.get("id")):
+            return consts.value(rd.get("id")) or "?"      # a variable declared in cocls (whatever its name): judged by its initialiser
+        if name in ORDERS and rk in ("EnumConstantDecl", "VarDecl", ""):
+            return ORDERS[name]     # std's enumerator / std's `inline constexpr memory_order memory_order_xxx`
         if name in order_params:
             return "?" + name
+        return "?"
+    if k == "MemberExpr" and consts is not None and consts.known(a.get("referencedMemberDecl")):
+        return consts.value(a.get("referencedMemberDecl")) or "?"      # `this->order_x` / `obj.order_x` naming a static data member
+    if k in ("ConditionalOperator", "BinaryConditionalOperator") and len(a.get("inner", [])) >= 3:
+        return order_meet([order_arg(x, order_params, std_default, consts) for x in a["inner"][-2:]])
     return "?"
+
+
+class OrderConsts:
+    """the `constexpr` / `const` variables and static data members of type std::memory_order declared in the dumped namespace, by
+    declaration id, with the order their initialiser denotes.  Only objects that can never change count: the declared type must be
+    `const std::memory_order` itself (no reference, no pointer; `constexpr` implies const).  No initialiser in this declaration (an
+    out-of-line definition), an initialiser that is not an enumerator / another such constant / a conditional expression over them:
+    unknown = weakest."""
+
+    def __init__(self):
+        self.decls = {}
+        self.memo = {}
+
+    def note(self, o):
+        if o.get("kind") == "VarDecl" and o.get("id") and "memory_order" in qt(o):
+            self.decls[o["id"]] = o
+
+    def known(self, did):
+        return bool(did) and did in self.decls
+
+    def value(self, did, depth=0):
+        if did in self.memo:
+            return self.memo[did]
+        d = self.decls.get(did)
+        r = None
+        if d is not None and depth < 8:
+            t = re.sub(r"\b(static|inline|constexpr)\b", "", qt(d)).strip()
+            immutable = bool(re.fullmatch(r"const\s+(std::)?memory_order|(std::)?memory_order\s+const", t))
+            init = [c for c in d.get("inner", []) if isinstance(c, dict) and not c.get("kind", "").endswith(("Comment", "Attr"))]
+            if immutable and "init" in d and len(init) == 1:
+                self.memo[did] = None       # a cycle is unknown
+                v = self._eval(init[0], depth + 1)
+                r = v if v and not v.startswith("?") else None
+        self.memo[did] = r
+        return r
+
+    def _eval(self, e, depth):
+        a = strip(e)
+        if not isinstance(a, dict):
+            return None
+        k = a.get("kind")
+        if k == "ConstantExpr" and a.get("inner"):
+            return self._eval(a["inner"][0], depth)
+        if k == "DeclRefExpr":
+            rd = a.get("referencedDecl") or {}
+            if rd.get("kind") == "VarDecl" and self.known(rd.get("id")):
+                return self.value(rd.get("id"), depth)
+            if rd.get("name", "") in ORDERS and rd.get("kind") in ("EnumConstantDecl", "VarDecl"):
+                return ORDERS[rd["name"]]
+            return None
+        if k == "MemberExpr" and self.known(a.get("referencedMemberDecl")):
+            return self.value(a.get("referencedMemberDecl"), depth)
+        if k in ("ConditionalOperator", "BinaryConditionalOperator") and len(a.get("inner", [])) >= 3:
+            arms = [self._eval(x, depth) for x in a["inner"][-2:]]
+            return order_meet([x or "?" for x in arms])
+        return None
 
 
 # member functions of future_common that load the slot RELAXED: their answer must never gate an access to the result
@@ -275,12 +390,20 @@ class Walker:
         self.members = {}      # cls -> list of (name, type)
         self.fn_aliases = set()   # alias names whose underlying type is a type-erased callable
         self.cur_file = ""
+        self.consts = OrderConsts()     # constexpr / const variables of type std::memory_order
+        self.cocls_functions = set()    # names of the functions the library itself declares (a free function called `atomic_load` of its own is not std's)
+        self.atomic_uses = {}           # field id -> number of recognised atomic operations whose object is that member
+        self.member_mentions = {}       # field id -> number of MemberExprs naming that member the walk has visited in any other role
+        self.field_ids = {}             # field id -> (class, name, type, desugared type)
 
     def run(self):
         self.record_names = {}
 
         def rec(o):
             if isinstance(o, dict):
+                self.consts.note(o)
+                if o.get("kind") in ("FunctionDecl", "CXXMethodDecl", "FunctionTemplateDecl") and o.get("name", "").startswith("atomic_"):
+                    self.cocls_functions.add(o["name"])
                 if o.get("kind") in ("TypeAliasDecl", "TypedefDecl") and "function<" in qt(o) and "std::" not in o.get("name", ""):
                     self.fn_aliases.add(o.get("name", ""))
                 if o.get("kind") in ("CXXRecordDecl", "ClassTemplateSpecializationDecl") and o.get("id") and o.get("name"):
@@ -292,6 +415,7 @@ class Walker:
         for o in self.objs:
             self.top(o, [])
         self.resolve_orders()
+        self.classify_inert()
         return self
 
     def resolve_orders(self):
@@ -323,6 +447,232 @@ class Walker:
                 if s.get("failDerived"):
                     s["fail"] = cas_failure(s["succ"])
 
+    # ------------------------------------------------------------------ inert diagnostic atomics
+    ARITH = (r"(?:(?:unsigned|signed|long|short|int|char|bool|float|double|wchar_t|char8_t|char16_t|char32_t|__int128)\s*)+"
+             r"|(?:std::)?(?:size_t|ptrdiff_t|u?int(?:_fast|_least)?(?:8|16|32|64)_t|u?intptr_t|u?intmax_t)")
+    INERT_OPS = ("load", "store", "fetch_add", "fetch_sub")
+
+    def classify_inert(self):
+        """Mark the sites of *inert* atomic members (`site["inert"] = True`) and count the positions of the plain accesses without them.
+
+        An atomic data member M of a class is inert when ALL of the following hold (anything not established = not inert, the sites
+        stay in the table and `c03_sites_accounted` decides):
+          (a) its type is std::atomic<T> with T an arithmetic type (integer, bool, character, floating point) - no pointer, no class;
+          (b) every mention of M anywhere in the dumped declarations (function bodies, constructor initialisers, default member
+              initialisers, lambda captures, pointers to member; template patterns, not their instantiations) is the object of a
+              recognised atomic operation, and each of these is a `load`, or a `store` / `fetch_add` / `fetch_sub` (`=`, `++`, `--`,
+              `+=`, `-=`, `std::atomic_*` included) whose operand is built from literals and parameters of the function only - of ANY
+              memory order.  So M's address is never taken, no reference to it is bound, nothing waits on it, nothing is exchanged
+              or compared with it;
+          (c) every `load` is the whole operand of the only statement `return <load>;` of its function (a *getter*), and every mention
+              of a getter's name anywhere in the library is again the operand (or an arm of a conditional expression whose condition
+              does not mention it) of the only `return` of a function - transitively (forwarding getters such as
+              `generator::yield_count()`).  The value never reaches a condition, an index, an argument, a store: it leaves the
+              library through return values only.
+
+        Why such a member cannot break C03 (data-race freedom and safe publication), whatever orders its operations have:
+          * no data race on M itself: by (b) every access to M is an atomic operation, and atomic operations do not race;
+          * no effect on the protocol objects: happens-before is the transitive closure of sequenced-before and synchronises-with.
+            An operation on M is sequenced like any other evaluation and can at most ADD synchronises-with edges (when it is a release
+            store read by an acquire load of M); it removes none.  A release sequence is a sequence of modifications of ONE atomic
+            object, so an operation on a different object neither continues nor breaks the release sequences the obligations rely on.
+            Every happens-before edge the protocol theorems derive for the program without M is therefore still there;
+          * no new behaviour of the rest: by (c) and (b) no value read from M influences control flow, an address, or a value written
+            to any other object, and the operations allowed in (b) never block; so every execution of the library with M, restricted
+            to the other objects, is an execution of the library without M (seq_cst operations on M only constrain the total order S
+            further, and the machine of Clock.lean reads seq_cst as acq_rel anyway).  Race freedom and publication facts about the
+            other objects carry over unchanged.
+        Why it cannot break C20: std::atomic<arithmetic> holds its value inline, its constructor, the operations of (b) and its
+        destructor are noexcept and never call an allocation function; the allocation-site table does not depend on this
+        classification at all (a member is an allocation site by its TYPE: container / function / string / shared_ptr).
+
+        The plain-access positions (`afterOp` = number of synchronising operations in front of the access) are counted without the
+        inert operations: they synchronise nothing the position obligations are about (same argument), and only so an added counter
+        leaves the positions of the existing accesses where they were."""
+        self.inert_report = []
+        by_field = {}
+        for f in self.fns:
+            for st in f.sites:
+                if st.get("fid"):
+                    by_field.setdefault(st["fid"], []).append((f, st))
+        cands = {}
+        for fid, uses in by_field.items():
+            info = self.field_ids.get(fid)
+            if info is None:
+                continue
+            cls, name, typ, desug = info
+            t = re.sub(r"^(const|volatile|mutable)\s+", "", (desug or typ).strip())
+            m = re.fullmatch(r"(?:std::)?atomic<\s*(.*?)\s*>", t)
+            if not m or not re.fullmatch(self.ARITH, m.group(1).strip()):
+                continue                                                                            # (a)
+            if any(st.get("op") not in self.INERT_OPS or st["inAssert"] or st.get("lambda") for _f, st in uses):
+                continue                                                                            # (b) kinds (not inside assertions / lambdas)
+            if any(st["op"] != "load" and not st.get("valuesOk") for _f, st in uses):
+                continue                                                                            # (b) operands
+            getters = []
+            ok = True
+            for f, st in uses:
+                if st["op"] != "load":
+                    continue
+                stmts = [c for c in (f.body or {}).get("inner", []) if isinstance(c, dict) and c.get("kind") != "NullStmt"]
+                if (f.body or {}).get("kind") == "CompoundStmt" and len(stmts) == 1 and stmts[0].get("kind") == "ReturnStmt" \
+                        and len(stmts[0].get("inner", [])) == 1 and strip(stmts[0]["inner"][0]) is st["node"]:
+                    getters.append(f.fn)
+                else:
+                    ok = False                                                                      # (c) shape of the loading function
+            if ok:
+                cands[fid] = {"info": info, "uses": uses, "getters": set(getters)}
+        if not cands:
+            return
+        # (b) every mention is a recognised operation; (c) the getters' results only travel through returns  -- one scan of the dump
+        mentions, dep_names, fn_mentions = self.scan_mentions(set(cands))
+        for fid, c in list(cands.items()):
+            cls, name, typ, _d = c["info"]
+            if mentions.get(fid, 0) != len(c["uses"]) or name in dep_names:
+                del cands[fid]
+                continue
+            names = set(c["getters"])
+            changed, ok = True, True
+            while changed and ok:
+                changed = False
+                for fnode, fname, used in fn_mentions:
+                    hit = used & names
+                    if not hit:
+                        continue
+                    if fnode is None or fname in ("operator()", "") or not self.forwards(fnode, names):
+                        ok = False          # used outside a function body, inside a lambda, or not in value position of a single return
+                        break
+                    if fname not in names:
+                        names.add(fname)
+                        changed = True
+            if not ok:
+                del cands[fid]
+                continue
+            c["names"] = names
+        for fid, c in cands.items():
+            cls, name, typ, _d = c["info"]
+            rows = []
+            for f, st in c["uses"]:
+                st["inert"] = True
+                rows.append({"cls": f.cls, "fn": f.fn, "op": st["op"], "kind": st["kind"], "order": st["succ"]})
+            self.inert_report.append({"cls": cls, "member": name, "type": typ, "getters": sorted(c["names"]), "sites": rows})
+        # positions of the plain accesses, counted without the inert operations
+        for f in self.fns:
+            flags = [bool(st.get("inert")) for st in f.sites if not st["inAssert"]]
+            if not any(flags):
+                continue
+            prefix = [0]
+            for fl in flags:
+                prefix.append(prefix[-1] + (1 if fl else 0))
+            for a in f.plain:
+                k = a["afterOp"]
+                if k > 0:
+                    a["afterOp"] = k - prefix[min(k, len(flags))]
+
+    @staticmethod
+    def pattern_children(o):
+        """children of a declaration / statement, template patterns only (as `top` / `member` walk them): no implicit instantiations"""
+        k = o.get("kind")
+        inner = o.get("inner", [])
+        if k == "FunctionTemplateDecl":
+            out, seen = [], False
+            for c in inner:
+                if isinstance(c, dict) and c.get("kind") in ("FunctionDecl", "CXXMethodDecl", "CXXConstructorDecl", "CXXConversionDecl", "CXXDeductionGuideDecl"):
+                    if seen:
+                        continue
+                    seen = True
+                out.append(c)
+            return out
+        if k == "ClassTemplateDecl":
+            return [c for c in inner if not (isinstance(c, dict) and c.get("kind") == "ClassTemplateSpecializationDecl")]
+        return inner
+
+    def scan_mentions(self, fids):
+        """(field id -> number of expressions naming that member, names used as members of dependent objects,
+        [(function declaration or None, its name, names of everything it mentions)])"""
+        mentions, dep_names, per_fn = {}, set(), []
+
+        def rec(o, cur):
+            if not isinstance(o, dict):
+                return
+            k = o.get("kind", "")
+            if k in ("FunctionDecl", "CXXMethodDecl", "CXXConstructorDecl", "CXXDestructorDecl", "CXXConversionDecl") and any(
+                    isinstance(c, dict) and c.get("kind") in ("CompoundStmt", "CoroutineBodyStmt", "CXXTryStmt") for c in o.get("inner", [])):
+                cur = [o, o.get("name", ""), set()]
+                per_fn.append(cur)
+            if not k.endswith("Decl"):
+                rid = o.get("referencedMemberDecl") if k == "MemberExpr" else (o.get("referencedDecl") or {}).get("id") if k == "DeclRefExpr" else None
+                if rid in fids:
+                    mentions[rid] = mentions.get(rid, 0) + 1
+                if k == "CXXDependentScopeMemberExpr":
+                    dep_names.add(o.get("member", ""))
+                nm = set()
+                if k in ("MemberExpr", "UnresolvedLookupExpr"):
+                    nm.add(o.get("name", ""))
+                if k == "CXXDependentScopeMemberExpr":
+                    nm.add(o.get("member", ""))
+                if k == "DeclRefExpr":
+                    nm.add((o.get("referencedDecl") or {}).get("name", ""))
+                if k == "UnresolvedMemberExpr":
+                    nm.add(o.get("_vn_name") or token_at(o.get("_file", ""), (o.get("range") or {}).get("end") or {}))
+                nm.discard("")
+                if nm:
+                    if cur is None:
+                        per_fn.append([None, "", nm])
+                    else:
+                        cur[2] |= nm
+            for c in self.pattern_children(o):
+                rec(c, cur)
+        for o in self.objs:
+            rec(o, None)
+        return mentions, dep_names, [tuple(x) for x in per_fn]
+
+    def mentions_in(self, o, names):
+        if isinstance(o, dict):
+            k = o.get("kind", "")
+            if not k.endswith("Decl") or k in ("VarDecl",):
+                n = {o.get("name") if k in ("MemberExpr", "UnresolvedLookupExpr") else None, o.get("member") if k == "CXXDependentScopeMemberExpr" else None,
+                     (o.get("referencedDecl") or {}).get("name") if k == "DeclRefExpr" else None,
+                     (o.get("_vn_name") or token_at(o.get("_file", ""), (o.get("range") or {}).get("end") or {})) if k == "UnresolvedMemberExpr" else None}
+                if n & names:
+                    return True
+            return any(self.mentions_in(c, names) for c in o.get("inner", []))
+        return False
+
+    def forwards(self, fnode, names):
+        """the function's body is the single statement `return E;` where the calls of `names` stand in value position of E only:
+        E is such a call (whose object expression and arguments do not mention the names), or `c ? E1 : E2` with c not mentioning them
+        and each arm such an E or free of them"""
+        body = next((c for c in fnode.get("inner", []) if isinstance(c, dict) and c.get("kind") == "CompoundStmt"), None)
+        if body is None:
+            return False
+        # nothing but the body may mention the names (constructor initialisers, default arguments)
+        if any(self.mentions_in(c, names) for c in fnode.get("inner", []) if c is not body):
+            return False
+        stmts = [c for c in body.get("inner", []) if isinstance(c, dict) and c.get("kind") != "NullStmt"]
+        if len(stmts) != 1 or stmts[0].get("kind") != "ReturnStmt" or len(stmts[0].get("inner", [])) != 1:
+            return False
+
+        def value_pos(e):
+            e = strip(e)
+            if not isinstance(e, dict):
+                return False
+            if not self.mentions_in(e, names):
+                return True
+            k = e.get("kind")
+            if k in ("ConditionalOperator",) and len(e.get("inner", [])) == 3:
+                c, x, y = e["inner"]
+                return not self.mentions_in(c, names) and value_pos(x) and value_pos(y)
+            if k in ("CXXMemberCallExpr", "CallExpr") and e.get("inner"):
+                callee = strip(e["inner"][0])
+                cn = callee.get("name") or callee.get("member") or (callee.get("referencedDecl") or {}).get("name") or ""
+                if callee.get("kind") == "UnresolvedMemberExpr":
+                    cn = callee.get("_vn_name") or token_at(callee.get("_file", ""), (callee.get("range") or {}).get("end") or {})
+                rest = list(callee.get("inner", [])) + e["inner"][1:]
+                return cn in names and not any(self.mentions_in(r, names) for r in rest)
+            return False
+        return value_pos(stmts[0]["inner"][0])
+
     def loc_file(self, o):
         self.cur_file = o.get("_file_begin") or o.get("_file") or self.cur_file
         return self.cur_file
@@ -332,33 +682,39 @@ class Walker:
         self.loc_file(o)
         if k == "NamespaceDecl":
             for c in o.get("inner", []):
+                self.cur_access = "public"
                 self.top(c, scope)
         elif k in ("CXXRecordDecl", "ClassTemplateSpecializationDecl", "ClassTemplatePartialSpecializationDecl"):
             if not o.get("inner") or not o.get("completeDefinition", True):
                 return
             name = o.get("name", "?")
+            access = "public" if o.get("tagUsed") in ("struct", "union") else "private"
             for c in o.get("inner", []):
+                if c.get("kind") == "AccessSpecDecl":
+                    access = c.get("access", access)
+                    continue
+                self.cur_access = access        # access specifier the member is declared under (FnFacts.access)
                 self.member(c, scope + [name])
         elif k == "ClassTemplateDecl":
             for c in o.get("inner", []):
                 if c.get("kind") == "CXXRecordDecl":
                     self.top(c, scope)
-        elif k in ("FunctionDecl", "CXXMethodDecl", "CXXConstructorDecl", "CXXDestructorDecl"):
+        elif k in ("FunctionDecl", "CXXMethodDecl", "CXXConstructorDecl", "CXXDestructorDecl", "CXXConversionDecl"):
             self.function(o, scope)
         elif k == "FunctionTemplateDecl":
             for c in o.get("inner", []):
-                if c.get("kind") in ("FunctionDecl", "CXXMethodDecl", "CXXConstructorDecl"):
+                if c.get("kind") in ("FunctionDecl", "CXXMethodDecl", "CXXConstructorDecl", "CXXConversionDecl"):
                     self.function(c, scope)
                     break
 
     def member(self, c, scope):
         k = c.get("kind")
         self.loc_file(c)
-        if k in ("CXXMethodDecl", "CXXConstructorDecl", "CXXDestructorDecl", "FunctionDecl"):
+        if k in ("CXXMethodDecl", "CXXConstructorDecl", "CXXDestructorDecl", "FunctionDecl", "CXXConversionDecl"):
             self.function(c, scope)
         elif k == "FunctionTemplateDecl":
             for d in c.get("inner", []):
-                if d.get("kind") in ("CXXMethodDecl", "CXXConstructorDecl", "FunctionDecl"):
+                if d.get("kind") in ("CXXMethodDecl", "CXXConstructorDecl", "FunctionDecl", "CXXConversionDecl"):
                     self.function(d, scope)
                     break
         elif k in ("CXXRecordDecl", "ClassTemplateDecl", "ClassTemplateSpecializationDecl"):
@@ -367,6 +723,8 @@ class Walker:
             self.top(c, scope)
         elif k == "FieldDecl":
             self.members.setdefault("::".join(scope), []).append((c.get("name", ""), qt(c), os.path.basename(self.cur_file)))
+            if c.get("id"):
+                self.field_ids[c["id"]] = ("::".join(scope), c.get("name", ""), qt(c), (c.get("type") or {}).get("desugaredQualType", ""))
         elif k == "FriendDecl":
             for d in c.get("inner", []):
                 if d.get("kind") == "FunctionDecl":
@@ -406,6 +764,8 @@ class Walker:
                     ff.order_params.append((pidx, c.get("name", "")))
                 pidx += 1
         ff.lk_helper = name.endswith("_lk")
+        ff.node, ff.body = f, body
+        ff.access = getattr(self, "cur_access", "public") if scope else "public"
         ff.has_lock_param = bool(locks)
         self.stmt(body, ff, dict(in_assert=False, locks=locks, lambda_depth=0))
 
@@ -421,9 +781,13 @@ class Walker:
                 self.stmt(c, ff, ctx2)
             return
         if k == "CompoundStmt":
-            # lock regions are tracked sequentially inside one compound statement (shared with the enclosing one)
+            # lock regions are tracked sequentially inside one compound statement (shared with the enclosing one); a lock object
+            # declared in this block is destroyed at its end: it does not hold anything for the statements after the block
+            before = set(ctx["locks"])
             for c in o.get("inner", []):
                 self.stmt(c, ff, ctx)
+            for n in [n for n in ctx["locks"] if n not in before and not n.startswith("<mutex>")]:
+                del ctx["locks"][n]
             return
         if k == "WhileStmt":
             inner = o.get("inner", [])
@@ -437,6 +801,20 @@ class Walker:
                 cas_in_cond = any(x["kind"] == "cas" for x in ff.sites[-max(1, len(new_sites)):]) and len([x for x in ff.sites if not x["inAssert"]]) > n_before
                 # `while (!x.compare_exchange(...)) body`: the body runs only after a FAILED exchange, i.e. before publication
                 self.stmt(body, ff, dict(ctx, nops_override=n_before) if cas_in_cond and negated_cas(cond) else ctx)
+                return
+        if k == "ForStmt":
+            # `for (init; cond; inc) body` is `{ init; while (cond) { body; inc; } }` ([stmt.for]): with `!cas` as its condition, body and
+            # increment run only after a FAILED exchange, like the body of the while loop above
+            inner = (o.get("inner", []) + [{}] * 5)[:5]
+            init, condvar, cond, inc, body = inner
+            if isinstance(cond, dict) and cond.get("kind") and negated_cas(cond) and not (isinstance(condvar, dict) and condvar.get("kind")):
+                self.stmt(init, ff, ctx)
+                n_before = len([x for x in ff.sites if not x["inAssert"]])
+                self.stmt(cond, ff, ctx)
+                grew = len([x for x in ff.sites if not x["inAssert"]]) > n_before
+                ctx2 = dict(ctx, nops_override=n_before) if grew else ctx
+                self.stmt(body, ff, ctx2)
+                self.stmt(inc, ff, ctx2)
                 return
         if k == "IfStmt":
             inner = o.get("inner", [])
@@ -469,6 +847,7 @@ class Walker:
                         ctx["locks"][d.get("name", "")] = {"held": True, "mutex": mx or "?"}
                         ff.locks.append((d.get("name", ""), mx))
                     self.note_alloc_type(t, "local", ff)
+                    self.mark_implicit_loads(d, ff)
                     for c in d.get("inner", []):
                         self.stmt(c, ff, ctx)
             return
@@ -481,6 +860,20 @@ class Walker:
                 elif c.get("kind") == "CXXRecordDecl":
                     continue
             return
+        self.mark_implicit_loads(o, ff)
+        if o.get("_implicit_load"):
+            self.atomic_op(ff, ctx, "load", "load", o, [], [], o)
+            return
+        if k == "CXXOperatorCallExpr":
+            inner = o.get("inner", [])
+            callee = strip(inner[0]) if inner else {}
+            opname = (callee.get("referencedDecl") or {}).get("name", "") if isinstance(callee, dict) and callee.get("kind") == "DeclRefExpr" else ""
+            if opname in ATOMIC_OPERATORS and len(inner) >= 2 and direct_atomic_type(qt(strip(inner[1]))):
+                # `a = v`, `a++`, `a += n` ... on an atomic object: the seq_cst store / read-modify-write it is defined as
+                kind, op = ATOMIC_OPERATORS[opname]
+                self.atomic_op(ff, ctx, kind, op, inner[1], [], [(a, False) for a in inner[2:]], o,
+                               values=[] if opname in ("operator++", "operator--") else inner[2:3])
+                return
         if k in ("CXXMemberCallExpr", "CallExpr"):
             self.call(o, ff, ctx)
             return
@@ -492,6 +885,11 @@ class Walker:
             inner = o.get("inner", [])
             if inner:
                 lhs = strip(inner[0])
+                if o.get("opcode") in ATOMIC_ASSIGN_OPCODES and direct_atomic_type(qt(lhs)):
+                    # the same inside a template, where the operator is not resolved yet
+                    kind, op = ATOMIC_OPERATORS[ATOMIC_ASSIGN_OPCODES[o["opcode"]]]
+                    self.atomic_op(ff, ctx, kind, op, inner[0], [], [(a, False) for a in inner[1:]], o, values=inner[1:2])
+                    return
                 if lhs.get("kind") in ("MemberExpr", "CXXDependentScopeMemberExpr"):
                     self.access(lhs, ff, ctx, write=True)
                     b = base_of(lhs)
@@ -525,11 +923,45 @@ class Walker:
                 ff.addr_of.append((name, bt, ctx["in_assert"]))
         if k == "UnaryOperator" and o.get("opcode") in ("++", "--"):
             inner = o.get("inner", [])
+            if inner and direct_atomic_type(qt(strip(inner[0]))):
+                kind, op = ATOMIC_OPERATORS[ATOMIC_ASSIGN_OPCODES[o["opcode"]]]
+                self.atomic_op(ff, ctx, kind, op, inner[0], [], [], o)
+                return
             if inner and strip(inner[0]).get("kind") in ("MemberExpr", "CXXDependentScopeMemberExpr"):
                 self.access(strip(inner[0]), ff, ctx, write=True)
                 return
         for c in o.get("inner", []):
             self.stmt(c, ff, ctx)
+
+    def mark_implicit_loads(self, o, ff):
+        """inside a template the conversion function of an atomic is not resolved yet: `T x = a;`, `return a;`, `if (a)`, `!a`, `a == b`
+        show the atomic object itself where a VALUE is needed.  An atomic cannot be copied, so this can only be the seq_cst load
+        (in non-dependent code the conversion is a call node and is read in `call`)"""
+        if not IMPLICIT_DEPENDENT_LOADS:
+            return
+        k = o.get("kind")
+        if k not in ("ReturnStmt", "IfStmt", "WhileStmt", "DoStmt", "UnaryOperator", "BinaryOperator", "VarDecl", "ConditionalOperator"):
+            return
+        vals = []
+        inner = [c for c in o.get("inner", []) if isinstance(c, dict) and c.get("kind")]
+        if k == "ReturnStmt" and not ff.ret_type.endswith("&"):
+            vals = inner[:1]
+        elif k in ("IfStmt", "WhileStmt"):
+            vals = inner[-3:-2] if k == "IfStmt" and o.get("hasElse") else inner[-2:-1]
+        elif k == "DoStmt":
+            vals = inner[-1:]
+        elif k == "UnaryOperator" and o.get("opcode") == "!":
+            vals = inner[:1]
+        elif k == "BinaryOperator" and o.get("opcode") in ("==", "!=", "<", ">", "<=", ">=", "&&", "||", "+", "-", "&", "|"):
+            vals = inner
+        elif k == "ConditionalOperator":
+            vals = inner[:1]
+        elif k == "VarDecl" and "&" not in qt(o) and not direct_atomic_type(qt(o)):
+            vals = [c for c in inner if not c["kind"].endswith(("Attr", "Comment"))][-1:]
+        for v in vals:
+            v2 = strip(v)
+            if isinstance(v2, dict) and v2.get("kind") in ("MemberExpr", "DeclRefExpr", "CXXDependentScopeMemberExpr") and direct_atomic_type(qt(v2)):
+                v2["_implicit_load"] = True
 
     def find_name(self, o, names):
         if isinstance(o, dict):
@@ -565,6 +997,62 @@ class Walker:
                 ff.allocs.append("%s:%s" % (where, lab))
                 break
 
+    def atomic_op(self, ff, ctx, kind, op, objexpr, orders, args, node, values=()):
+        """one synchronising operation: `kind` of the site row, `op` = name of the std::atomic member function it is (whatever the
+        spelling), `objexpr` the atomic object, `orders` the order arguments already read by order_arg (none = seq_cst; one for a CAS =
+        the failure order is derived), `args` = [(argument expression, is-the-expected-reference-of-a-CAS)] walked AFTER the site is
+        recorded (as ever: they may contain plain accesses), `values` the operands that are stored / added (inertness, see classify_inert)"""
+        bname = expr_name(objexpr) if objexpr is not None else ""
+        if kind == "cas":
+            if len(orders) >= 2:
+                succ, fail = orders[0], orders[1]
+            elif len(orders) == 1:
+                succ, fail = orders[0], cas_failure(orders[0])
+            else:
+                succ = fail = "seq_cst"
+        else:
+            succ = fail = orders[0] if orders else "seq_cst"
+        ob = strip(objexpr) if objexpr is not None else {}
+        fid = ob.get("referencedMemberDecl") if isinstance(ob, dict) and ob.get("kind") == "MemberExpr" else None
+        ff.sites.append({"kind": kind, "obj": bname, "succ": succ, "fail": fail, "inAssert": ctx["in_assert"],
+                         "op": op, "fid": fid, "node": node, "valuesOk": all(independent_value(v) for v in values),
+                         "lambda": ctx["lambda_depth"]})
+        if fid:
+            self.atomic_uses[fid] = self.atomic_uses.get(fid, 0) + 1
+        if kind == "cas" and len(orders) == 1 and succ.startswith("?"):
+            ff.sites[-1]["failDerived"] = True     # single-order CAS: the failure order is derived once the order is known
+        # arguments may contain plain accesses (e.g. `_next` passed by reference as `expected`)
+        for a, is_expected in args:
+            a2 = strip(a)
+            if is_expected and isinstance(a2, dict) and a2.get("kind") in ("MemberExpr", "CXXDependentScopeMemberExpr"):
+                # the expected-reference is read before and written (on failure) by the operation itself
+                self.access(a2, ff, dict(ctx), write=True)
+                ff.plain[-1]["afterOp"] -= 1 if not ctx["in_assert"] else 0
+                ff.plain[-1]["byCas"] = True
+            else:
+                self.stmt(a, ff, ctx)
+
+    def free_atomic(self, o, fname, args, ff, ctx):
+        """`std::atomic_xxx[_explicit](&a, ...)`: the same site as `a.xxx(...)`.  False when this is not such a call."""
+        spec = FREE_ATOMIC.get(fname)
+        if spec is None or fname in self.cocls_functions or not args:
+            return False        # a function of that name declared by the library itself is an ordinary call (weakest reading: no site)
+        kind, op, opos = spec
+        obj = strip(args[0])
+        if isinstance(obj, dict) and obj.get("kind") == "UnaryOperator" and obj.get("opcode") == "&" and obj.get("inner"):
+            obj = obj["inner"][0]
+        orders = [] if opos is None else [order_arg(a, [n for _, n in ff.order_params], consts=self.consts) for a in args[opos:opos + 2]]
+        rest = []
+        for i, a in enumerate(args[1:]):
+            if kind == "cas" and i == 0:
+                e = strip(a)        # `expected` is passed by pointer here
+                if isinstance(e, dict) and e.get("kind") == "UnaryOperator" and e.get("opcode") == "&" and e.get("inner"):
+                    rest.append((e["inner"][0], True))
+                    continue
+            rest.append((a, False))
+        self.atomic_op(ff, ctx, kind, op, obj, orders, rest, o, values=args[1:2] if kind in ("store", "rmw") else [])
+        return True
+
     def call(self, o, ff, ctx):
         inner = o.get("inner", [])
         if not inner:
@@ -574,21 +1062,25 @@ class Walker:
         ck = callee.get("kind")
         mname = callee.get("name") if ck == "MemberExpr" else (callee.get("member") if ck == "CXXDependentScopeMemberExpr" else None)
         if ck == "UnresolvedMemberExpr":
-            mname = token_at(callee.get("_file", ""), (callee.get("range") or {}).get("end") or {})
+            mname = callee.get("_vn_name") or token_at(callee.get("_file", ""), (callee.get("range") or {}).get("end") or {})
         if ck == "DeclRefExpr":
             fname = (callee.get("referencedDecl") or {}).get("name", "")
             if fname == "atomic_thread_fence":
-                ordr = order_arg(args[0], [n for _, n in ff.order_params], std_default=True) if args else None
+                ordr = order_arg(args[0], [n for _, n in ff.order_params], std_default=True, consts=self.consts) if args else None
                 ff.sites.append({"kind": "fence", "obj": "", "succ": ordr or "seq_cst", "fail": ordr or "seq_cst",
                                  "inAssert": ctx["in_assert"]})
+                return
+            if self.free_atomic(o, fname, args, ff, ctx):
                 return
             if fname in ("make_shared", "make_unique", "allocate_shared"):
                 ff.allocs.append(fname)
             ff.seq += 1
             ff.calls.append((fname, self.any_lock_held(ctx), ff.seq))
-            ff.call_orders.append((fname, [order_arg(a, [n for _, n in ff.order_params]) for a in args]))
+            ff.call_orders.append((fname, [order_arg(a, [n for _, n in ff.order_params], consts=self.consts) for a in args]))
         if ck == "UnresolvedLookupExpr":
             fname = callee.get("name", "")
+            if self.free_atomic(o, fname, args, ff, ctx):
+                return
             if fname in ("make_shared", "make_unique"):
                 ff.allocs.append(fname)
             ff.seq += 1
@@ -601,6 +1093,15 @@ class Walker:
             if bname in ctx["locks"] and mname in ("unlock", "lock"):
                 ctx["locks"][bname]["held"] = (mname == "lock")
                 return
+            # `_mx.lock()` / `_mx.unlock()` on the object's own mutex member: a lock region without a lock object.  The state lives in
+            # ctx["locks"] like a lock object's, so the branch merge of IfStmt applies (a lock taken inside a branch does not count after it)
+            if mname in ("lock", "unlock") and not args and base is not None:
+                b2 = strip(base)
+                own = b2.get("kind") in ("MemberExpr", "CXXDependentScopeMemberExpr") and (
+                    not b2.get("inner") or strip(b2["inner"][0]).get("kind") == "CXXThisExpr")
+                if own and ("mutex" in btype or btype == "Lock" or bname in ("_mx", "mx")):
+                    ctx["locks"].setdefault("<mutex>" + bname, {"held": False, "mutex": bname})["held"] = (mname == "lock")
+                    return
             is_atomic = ("atomic" in btype) or ("awaiter_collector" in btype) or (
                 ("dependent" in btype or btype == "") and bname in KNOWN_ATOMIC_NAMES)
             if mname in ATOMIC_METHODS and is_atomic:
@@ -608,29 +1109,13 @@ class Walker:
                 # the order arguments by POSITION; an argument that is not a literal enumerator is never silently dropped
                 # (seen with the seeded change r5-c08-unlock-relaxed-build-queue: the order travelled through a parameter)
                 pos = ORDER_POS.get(kind)
-                orders = [order_arg(a, [n for _, n in ff.order_params], std_default=True) for a in args[pos:pos + 2]] if pos is not None else []
-                if kind == "cas":
-                    if len(orders) >= 2:
-                        succ, fail = orders[0], orders[1]
-                    elif len(orders) == 1:
-                        succ, fail = orders[0], cas_failure(orders[0])
-                    else:
-                        succ = fail = "seq_cst"
-                else:
-                    succ = fail = orders[0] if orders else "seq_cst"
-                ff.sites.append({"kind": kind, "obj": bname, "succ": succ, "fail": fail, "inAssert": ctx["in_assert"]})
-                if kind == "cas" and len(orders) == 1 and succ.startswith("?"):
-                    ff.sites[-1]["failDerived"] = True     # single-order CAS: the failure order is derived once the order is known
-                # arguments may contain plain accesses (e.g. `_next` passed by reference as `expected`)
-                for a in args:
-                    a2 = strip(a)
-                    if kind == "cas" and a is args[0] and a2.get("kind") in ("MemberExpr", "CXXDependentScopeMemberExpr"):
-                        # the expected-reference is read before and written (on failure) by the operation itself
-                        self.access(a2, ff, dict(ctx), write=True)
-                        ff.plain[-1]["afterOp"] -= 1 if not ctx["in_assert"] else 0
-                        ff.plain[-1]["byCas"] = True
-                    else:
-                        self.stmt(a, ff, ctx)
+                orders = [order_arg(a, [n for _, n in ff.order_params], std_default=True, consts=self.consts) for a in args[pos:pos + 2]] if pos is not None else []
+                self.atomic_op(ff, ctx, kind, mname, base, orders, [(a, kind == "cas" and a is args[0]) for a in args], o,
+                               values=args[:1] if kind in ("store", "rmw") else [])
+                return
+            if base is not None and mname.startswith("operator ") and not args and direct_atomic_type(btype):
+                # the conversion function of an atomic (`T x = a;`, `if (a)`, `return a;`): a seq_cst load
+                self.atomic_op(ff, ctx, "load", "load", base, [], [], o)
                 return
             if base is not None:
                 self.stmt(base, ff, ctx)
@@ -638,7 +1123,7 @@ class Walker:
                 self.stmt(a, ff, ctx)
             ff.seq += 1
             ff.calls.append((mname, self.any_lock_held(ctx), ff.seq))
-            ff.call_orders.append((mname, [order_arg(a, [n for _, n in ff.order_params]) for a in args]))
+            ff.call_orders.append((mname, [order_arg(a, [n for _, n in ff.order_params], consts=self.consts) for a in args]))
             if mname in HINT_LOADS and not ctx["in_assert"]:
                 ff.hint_calls.append(mname)
             return
